@@ -181,50 +181,60 @@ static size_t put_prefix(uint8_t *b, size_t at, int enc, size_t n, bool sc3)
 #ifndef PMAX
 #define PMAX 3
 #endif
+#ifndef NNAL
+#define NNAL 2
+#endif
 void h_convert(void)
 {
     BUILD_FRAME();
-    VIN(int, av); VIN(int, bv); VIN(uint8_t, n1); VIN(uint8_t, n2); VIN(uint8_t, sc3a); VIN(uint8_t, sc3b); VIN_ARR(uint8_t, pay, 2 * PMAX);
+    VIN(int, av); VIN(int, bv); VIN_ARR(uint8_t, nsz, 3); VIN_ARR(uint8_t, sc3, 3); VIN_ARR(uint8_t, pay, 3 * PMAX);
 #ifdef AENC
     VASSUME(av == AENC);           /* case split on the input encapsulation (one group per value) */
 #endif
     VASSUME(av >= UREF_H26X_ENCAPS_NALU && av <= UREF_H26X_ENCAPS_LENGTH4 && av != UREF_H26X_ENCAPS_LENGTH_UNKNOWN);
     VASSUME(bv >= UREF_H26X_ENCAPS_NALU && bv <= UREF_H26X_ENCAPS_LENGTH4 && bv != UREF_H26X_ENCAPS_LENGTH_UNKNOWN);
-    VASSUME(n1 >= 1 && n1 <= PMAX && n2 >= 1 && n2 <= PMAX && !g_fail_alloc && !g_fail_insert);
+    VASSUME(!g_fail_alloc && !g_fail_insert);
+    for (int q = 0; q < NNAL; q++) VASSUME(nsz[q] >= 1 && nsz[q] <= PMAX);
 #ifdef AENC
     enum uref_h26x_encaps A = (enum uref_h26x_encaps)AENC, B = (enum uref_h26x_encaps)bv;
 #else
     enum uref_h26x_encaps A = (enum uref_h26x_encaps)av, B = (enum uref_h26x_encaps)bv;
 #endif
-    /* (an Annex B payload does not start with 00 00 0x: a start code is recognised by its octets) */
-    size_t at = 0;
-    at += put_prefix(g_frame.b, at, A, n1, (sc3a & 1) != 0); size_t p1 = at;
-    for (int k = 0; k < PMAX; k++) { if (k >= n1) break; g_frame.b[at++] = pay[k]; }
-    size_t off2 = at;
-    at += put_prefix(g_frame.b, at, A, n2, (sc3b & 1) != 0); size_t p2 = at;
-    for (int k = 0; k < PMAX; k++) { if (k >= n2) break; g_frame.b[at++] = pay[PMAX + k]; }
+    /* frame = NNAL units, each prefix_A + payload (an Annex B payload does not start with 00 00 0x: a start code is recognised by its octets) */
+    size_t at = 0, off[3] = { 0, 0, 0 }; bool all_sc4 = true;
+    for (int q = 0; q < NNAL; q++) {
+        off[q] = at;
+        at += put_prefix(g_frame.b, at, A, nsz[q], (sc3[q] & 1) != 0);
+        if (sc3[q] & 1) all_sc4 = false;
+        for (int k = 0; k < PMAX; k++) { if (k >= nsz[q]) break; g_frame.b[at++] = pay[q * PMAX + k]; }
+    }
     g_frame.len = at;
     for (int k = 0; k < NALMAX; k++) g_naloff_set[k] = false;
-    g_naloff[0] = off2; g_naloff_set[0] = true; g_hdr_set = false; g_attr_bad = 0;
+    for (int q = 1; q < NNAL; q++) { g_naloff[q - 1] = off[q]; g_naloff_set[q - 1] = true; }
+    g_hdr_set = false; g_attr_bad = 0;
     uint8_t orig[FMAX]; size_t orig_len = g_frame.len; for (int k = 0; k < FMAX; k++) orig[k] = g_frame.b[k];
     int ret = upipe_h26xf_convert_frame(&g_uref, A, B, NULL, &g_annexb_ubuf);
     VPOST(ret == UBASE_ERR_NONE && g_ops_bad == 0 && g_attr_bad == 0);
     /* expected frame */
-    uint8_t exp[FMAX]; for (int k = 0; k < FMAX; k++) exp[k] = 0; size_t e = 0;
+    uint8_t exp[FMAX]; for (int k = 0; k < FMAX; k++) exp[k] = 0; size_t e = 0, eoff[3] = { 0, 0, 0 };
     if (A == B) { for (int k = 0; k < FMAX; k++) exp[k] = orig[k]; e = orig_len; }
     else {
-        e += put_prefix(exp, e, B, n1, false); for (int k = 0; k < PMAX; k++) { if (k >= n1) break; exp[e++] = pay[k]; }
-        size_t eoff2 = e;
-        e += put_prefix(exp, e, B, n2, false); for (int k = 0; k < PMAX; k++) { if (k >= n2) break; exp[e++] = pay[PMAX + k]; }
-        VPOST(g_naloff_set[0] && g_naloff[0] == eoff2 && !g_naloff_set[1]);          /* the units are still delimited */
+        for (int q = 0; q < NNAL; q++) {
+            eoff[q] = e;
+            e += put_prefix(exp, e, B, nsz[q], false);
+            for (int k = 0; k < PMAX; k++) { if (k >= nsz[q]) break; exp[e++] = pay[q * PMAX + k]; }
+        }
+        VIN(uint8_t, gq); VASSUME(gq >= 1 && gq < NNAL);
+        VPOST(g_naloff_set[gq - 1] && g_naloff[gq - 1] == eoff[gq] && !g_naloff_set[NNAL - 1]);          /* the units are still delimited */
     }
     VPOST(g_frame.len == e);
     VPOST(gi >= e || gi >= FMAX || g_frame.b[gi] == exp[gi]);
 #ifdef ROUNDTRIP
     /* and back: original octets when A used 4-octet start codes or length prefixes */
-    if (A != B && ((A == UREF_H26X_ENCAPS_ANNEXB && !(sc3a & 1) && !(sc3b & 1)) || A == UREF_H26X_ENCAPS_LENGTH4 || A == UREF_H26X_ENCAPS_LENGTH1 || A == UREF_H26X_ENCAPS_LENGTH2)) {
+    if (A != B && ((A == UREF_H26X_ENCAPS_ANNEXB && all_sc4) || A == UREF_H26X_ENCAPS_LENGTH4 || A == UREF_H26X_ENCAPS_LENGTH1 || A == UREF_H26X_ENCAPS_LENGTH2)) {
         int r2 = upipe_h26xf_convert_frame(&g_uref, B, A, NULL, &g_annexb_ubuf);
-        VPOST(r2 == UBASE_ERR_NONE && g_frame.len == orig_len && g_naloff[0] == off2);
+        VIN(uint8_t, gq2); VASSUME(gq2 >= 1 && gq2 < NNAL);
+        VPOST(r2 == UBASE_ERR_NONE && g_frame.len == orig_len && g_naloff[gq2 - 1] == off[gq2]);
         VPOST(gi >= orig_len || gi >= FMAX || g_frame.b[gi] == orig[gi]);
     }
 #endif
